@@ -625,3 +625,64 @@ def c02_monitor(case, frames):
         if k == "LATE_ADD" and (a[0] != "1" or a[1] != "1"):
             return ("Add after Wait returned (bar nil=%s, ErrDone=%s)" % (a[0], a[1]), "late-add-result")
     return None
+
+
+# ---------------------------------------------------------------- pty family (C04 on the terminal path)
+def pty_replay(data, rows, upto=None):
+    """interpret [data] as a terminal of [rows] lines would: returns (scrollback, window) as lists of strings"""
+    window, scroll, r = [""], [], 0
+    i, n = 0, len(data) if upto is None else min(upto, len(data))
+    while i < n:
+        ch = data[i]
+        if ch == "\x1b" and i + 1 < n and data[i + 1] == "[":
+            j = i + 2
+            while j < n and (data[j].isdigit() or data[j] == ";"):
+                j += 1
+            arg, fin = data[i + 2:j], data[j] if j < n else ""
+            if fin == "A":
+                r = max(0, r - int(arg or "1"))
+            elif fin == "J":
+                window[r] = ""
+                del window[r + 1:]
+            i = j + 1
+            continue
+        if ch == "\n":
+            if r + 1 < len(window):
+                r += 1
+            elif len(window) < rows:
+                window.append("")
+                r += 1
+            else:
+                scroll.append(window.pop(0))
+                window.append("")
+            i += 1
+            continue
+        if ch == "\r":
+            i += 1
+            continue
+        window[r] += ch
+        i += 1
+    return scroll, window
+
+
+def c04_pty_monitor(hdr, marks, data):
+    """hdr: case fields; marks: [(offset, label)]; data: the bytes seen by the terminal"""
+    import re as _re
+    rows, cols, pop = int(hdr[2]), int(hdr[3]), hdr[7] == "1"
+    for off, label in marks:
+        scroll, window = pty_replay(data, rows, off)
+        tags = {}
+        for where, lines in (("scrollback", scroll), ("screen", window)):
+            for ln in lines:
+                for t in _re.findall(r"<([BX]\d\d)>", ln):
+                    tags.setdefault(t, []).append(where)
+                if len(ln) > cols:
+                    return ("a line of %d columns on a terminal of %d columns after '%s'" % (len(ln), cols, label), "pty-line-too-wide")
+        for t, where in sorted(tags.items()):
+            if len(where) > 1:
+                return ("after '%s' the row of %s is on the terminal %d times (%s): a stale copy was left behind "
+                        "(terminal %dx%d, %s bars)" % (label, t, len(where), ", ".join(where), rows, cols, hdr[4]), "pty-stale-row")
+            if where == ["scrollback"] and not pop:
+                return ("after '%s' the row of the running bar %s has been pushed into the scrollback (terminal %dx%d, %s bars)"
+                        % (label, t, rows, cols, hdr[4]), "pty-row-in-scrollback")
+    return None
